@@ -446,7 +446,7 @@ fn run(e: &Engine) {
     // one must scale by the table's factor, any other must be rejected); longer strings for the two
     // quantities with the most multiplier prefixes in the thorough tier
     const LETTERS: &[u8] = b"ABCDEFGHIJKLMNOPQRSTUVWXYZ";
-    let all_len = if cfg!(debug_assertions) { e.tier.pick(3usize, 4) } else { 6 };
+    let all_len = if cfg!(debug_assertions) { e.tier.pick(3usize, 4) } else if crate::engine::ALT_CONFIG { e.tier.pick(5usize, 6) } else { 6 };
     let part = crate::gen::enumstr::Partitioned { alpha: LETTERS, max_len: all_len, prefix_len: 2 };
     let partr = &part;
     e.enumerate::<Case, _, _>(
